@@ -5,6 +5,6 @@ cd "$(dirname "$0")"
 export GOFLAGS=-mod=mod GOPROXY=off GOSUMDB=off GOTOOLCHAIN=local
 (cd harness && go build -o bin/extract ./cmd/extract && bin/extract -repo /repo -out ../lean/Goirc/Facts.lean)
 (cd lean && lake build Goirc Goirc.FactsCheck driver)
-(cd harness && go build -tags verif -o bin/corr ./cmd/corr)
+(cd harness && go build -tags verif -o bin/corr ./cmd/corr && (go build -race -tags verif -o bin/racer ./cmd/racer || echo "note: race-enabled build unavailable"))
 mkdir -p evidence replays
 echo setup ok
